@@ -39,13 +39,14 @@ func (c20) Assumptions() []string {
 const c20Root = "/nonexistent-verif-root"
 
 type C20Case struct {
-	Cfg    EngCfg              `json:"cfg"`
-	Env    *Env                `json:"env"`
-	Tree   []*TNode            `json:"tree"`
-	Source string              `json:"source"` // informational: Source(Tree)
-	Inc    map[string][]*TNode `json:"inc,omitempty"`
-	EP     int                 `json:"entry_point"`
-	StrW   bool                `json:"string_writer,omitempty"` // the writer also implements io.StringWriter
+	Cfg     EngCfg              `json:"cfg"`
+	Env     *Env                `json:"env"`
+	Tree    []*TNode            `json:"tree"`
+	Source  string              `json:"source"` // informational: Source(Tree)
+	Inc     map[string][]*TNode `json:"inc,omitempty"`
+	EP      int                 `json:"entry_point"`
+	StrW    bool                `json:"string_writer,omitempty"` // the writer also implements io.StringWriter
+	ErrKind int                 `json:"error_kind,omitempty"`    // index into errKinds: the value the writer fails with
 	// the failing execution (set on violations)
 	K      int  `json:"k"`
 	Accept int  `json:"accept"`
@@ -70,6 +71,9 @@ func genC20(r *Rng) *C20Case {
 	cs.Source = Source(cs.Tree)
 	cs.EP = pick(r, []int{EPFRender, EPFRender, EPParseAndFRender})
 	cs.StrW = r.Chance(0.3)
+	if r.Chance(0.3) {
+		cs.ErrKind = r.Range(1, len(errKinds)-1)
+	}
 	return cs
 }
 
@@ -123,6 +127,9 @@ func c20Setup(cs *C20Case) (*c20Exec, Res) {
 func (x *c20Exec) run(w *FaultWriter) Res {
 	simrt.SetMapOrder(simrt.OrderAsc, 0)
 	simrt.SetClock(time.Unix(1700000000, 0).UTC())
+	if w.Err == nil {
+		w.Err = errKinds[x.cs.ErrKind%len(errKinds)]
+	}
 	if x.cs.StrW {
 		return Run(x.cs.EP, x.eng, x.tpl, x.src, x.b, FaultStringWriter{w})
 	}
@@ -154,7 +161,7 @@ func c20Judge(res Res, w *FaultWriter, base []byte) (clause, detail, sig string)
 	if res.OK || res.raw == nil {
 		return "returns-error", fmt.Sprintf("call returned success although Write call %d failed (%s)", w.K, mode), "returns-error|" + mode
 	}
-	if !carries(res.raw) {
+	if !carriesErr(res.raw, w.fail()) {
 		return "carries-failure", fmt.Sprintf("returned error %q does not carry the writer's failure (call %d, %s)", res.Err, w.K, mode), "carries-failure|" + mode
 	}
 	if !strings.HasPrefix(string(base), string(w.Accepted)) {
